@@ -484,7 +484,7 @@ pub fn run(args: &Args) -> i32 {
         rule: "one evaluation = one history of 5-30 events over {connect, client close, request, send malformed header, set decode level, shutdown, drop handle} against the real create_tcp_server_task on loopback with max_sessions in 0..4; after every event the sockets are probed (sentinel request with a unique transaction id = alive, EOF/reset = closed) and compared with an ordered-list model: new connection always served, exactly the oldest evicted at the limit, others undisturbed, all closed and the port refusing after shutdown/drop. distinct = (max_sessions, terminal event) and event kinds".into(),
         assumptions: vec![
             "after a client closes, the server is given 150 ms to notice before the next event; a discrepancy is reported only if it reproduces with 1.5 s".into(),
-            "connections stuck inside a TLS handshake are outside this check (recorded in DESIGN.md)".into(),
+            "a connection that stays inside the TLS handshake is a session like any other (TLS leg): it holds a place and must be closed when evicted and at shutdown".into(),
         ],
         exhaustive: None,
         floors: vec![
